@@ -10,6 +10,7 @@ CONSTANTS
   MaxBatch = 0
   BatchVecs = {}
   FConsolidateTombstones = TRUE
+  SkipRejected = FALSE
   FBufferBlind = TRUE
 CONSTRAINT HighWater
 POSTCONDITION TraceAccepted
